@@ -4,8 +4,10 @@
 From Coq Require Import List Bool.
 From PMS Require Import Base.PyStr Model.ConfigSyntax Model.ConfigCheck Spec.ConfigSpec.
 
-Lemma check_MQTTGw (orc : avop -> pstr -> pstr -> option bool) : check_class orc MQTTGw = true.
+Lemma check_MQTTGw (orc : avop -> pstr -> pstr -> option bool) (cont : pstr -> bool) :
+  check_class orc cont MQTTGw = true.
 Proof. vm_cast_no_check (eq_refl true). Qed.
 
-Lemma check_AsyncMQTTGw (orc : avop -> pstr -> pstr -> option bool) : check_class orc AsyncMQTTGw = true.
+Lemma check_AsyncMQTTGw (orc : avop -> pstr -> pstr -> option bool) (cont : pstr -> bool) :
+  check_class orc cont AsyncMQTTGw = true.
 Proof. vm_cast_no_check (eq_refl true). Qed.
